@@ -122,9 +122,14 @@ const pubPass = "Pubpass123456"
 // inherit the lowered values on the implementation side only)
 var defaultCoinbaseMaturity, defaultMinFrozenPeriod = consensus.CoinbaseMaturity, consensus.MinFrozenPeriod
 
-func (e *WEnv) reset() {
+// resetConsensusParams is called by runExec at every `reset` LINE (a new history) - not by WEnv.reset, which also runs
+// when a multi-instance engine opens another instance in the middle of a history
+func resetConsensusParams() {
 	consensus.CoinbaseMaturity, consensus.MinFrozenPeriod = defaultCoinbaseMaturity, defaultMinFrozenPeriod
 	consensus.MASSIP0002WarmUpHeight = defaultWarmUpHeight // op `warmup` (eng_led.go) lowers it for one history
+}
+
+func (e *WEnv) reset() {
 	e.Close()
 	os.RemoveAll(e.dir)
 	os.MkdirAll(e.dir, 0700)
